@@ -36,6 +36,9 @@ func TestMain(m *testing.M) {
 
 const watchdog = 20 * time.Second
 
+// longWatchdog is the budget of the last, solitary rerun that separates "slow" from "does not terminate".
+const longWatchdog = 150 * time.Second
+
 // input is one hostile input for an entry point.
 type input struct {
 	data  []byte   // the hostile bytes (what is written to the replay dir)
@@ -75,6 +78,7 @@ type stats struct {
 	Hangs      int            `json:"hangs_confirmed"`
 	StateCheck int            `json:"state_digests_compared"`
 	Skipped    int            `json:"skipped_after_hang"`
+	Slow       int            `json:"slow_inputs"`
 	OpsPtrs    int            `json:"distinct_operator_x_pointer"`
 	Operators  int            `json:"distinct_operators"`
 	Seeds      int            `json:"valid_seeds"`
@@ -112,12 +116,12 @@ func (h *harness) st(name string) *stats {
 func (h *harness) budget(slow bool) (int, int) {
 	if h.r.Thorough() {
 		if slow {
-			return 6000, 6000
+			return 5000, 5000
 		}
 		return 1 << 30, 20000
 	}
 	if slow {
-		return 250, 150
+		return 160, 110
 	}
 	return 600, 400
 }
@@ -377,6 +381,20 @@ func (h *harness) confirmHang(e *entry, st *stats, in input) {
 			break
 		}
 	}
+	if expired == 3 {
+		// slow is not stuck: one last run, still alone, with a budget of minutes. Only an input that does not return within that is reported as a hang.
+		t0 := time.Now()
+		if o := guarded(func() error { return e.call(in) }, longWatchdog); !o.timeout {
+			h.alone.Unlock()
+			st.mu.Lock()
+			st.Slow++
+			st.mu.Unlock()
+			h.r.Count("slow_inputs", 1)
+			h.r.Inconclusive(fmt.Sprintf("%s: slow input, no hang: exceeded %s four times but returned after %s when given %s alone (%d bytes, mutations %v)", e.name, watchdog, time.Since(t0).Round(time.Second), longWatchdog, len(in.data), in.ops))
+			h.persist(e, in, "slow-"+in.class())
+			return
+		}
+	}
 	h.alone.Unlock()
 	if expired < 3 {
 		h.r.Inconclusive(fmt.Sprintf("%s: watchdog expired once but the input returned when rerun alone (mutations %v)", e.name, in.ops))
@@ -474,12 +492,13 @@ func TestCheck(t *testing.T) {
 		"Non-trivial = a mutated (not pristine) input whose call was observed to completion/panic/expiry; distinct by (entry, operator@pointer set).")
 	r.Require(r.Pick(4000, 60000), r.Pick(2500, 30000))
 	r.Assume("inputs are those reachable by the listed operators from the harness' valid instances; a silent run says nothing about other inputs")
-	r.Assume("a watchdog expiry is a hang only when the same input expires 3 more times with nothing else running; otherwise inconclusive")
+	r.Assume("a watchdog expiry (20s) is a hang only when the same input expires 3 more times with nothing else running and then also does not return within 150s alone; otherwise inconclusive (slow input)")
 	r.Assume("unrecoverable runtime errors (stack exhaustion, out of memory) in in-process entry points would abort the check as BROKEN with the input left in replay/C19/current/")
 
 	cur := filepath.Join(ev.Root(), "replay", "C19", "current")
 	_ = os.MkdirAll(cur, 0o755)
 	h := &harness{r: r, t: t, stats: map[string]*stats{}, current: cur, hangs: map[string]bool{}}
+	jmut.Heavy = r.Thorough()
 
 	// development aid: VERIF_C19_ONLY=entries|v2|http[,entry-name-substring] restricts the run (the run is then reported as broken: observed too little)
 	only := os.Getenv("VERIF_C19_ONLY")
